@@ -10,6 +10,7 @@ import (
 	"fmt"
 	"io"
 	"net/http"
+	"os"
 	"strings"
 	"testing"
 
@@ -20,8 +21,8 @@ import (
 	"github.com/flamego/flamego/verifharness/internal/rt"
 )
 
-const rule = "case = environment in {development, production, test} x Recovery placed as application middleware, group handler or first route handler x 0..2 recording middleware before it x 1..3 later handlers, each a program over {write a status, write body bytes, Next(), panic(value), require an unresolvable dependency} with panic values of kinds {string, error, runtime error, struct, http.ErrAbortHandler, custom error, integer} x a sequence of 1..4 requests mixing the panicking route and a healthy one. " +
-	"Oracle: nothing escapes ServeHTTP; an interpreter of the handler programs says what had been sent before the panic: status = that status, or 500 if none; body = the earlier bytes followed by (development: HTML that contains the panic text; otherwise exactly 'Internal Server Error'); every recording middleware logged its code after Next(); a healthy request answers exactly like on a fresh instance. " +
+const rule = "case = environment in {development, production, test} x Recovery placed as application middleware, group handler or first route handler x 0..2 recording middleware before it x 1..3 later handlers, each a program over {write a status, write body bytes, Next(), panic(value), require an unresolvable dependency} with panic values of kinds {string, error, runtime error, struct, http.ErrAbortHandler, custom error, integer, typed-nil error}; the environment may change between construction and requests x a sequence of 1..4 requests mixing the panicking route and a healthy one. " +
+	"Oracle: nothing escapes ServeHTTP; an interpreter of the handler programs says what had been sent before the panic: status = that status, or 500 if none; body = the earlier bytes followed by a tail that (development) shows the panic value, (otherwise) shows neither the value nor stack frames; every recording middleware logged its code after Next(); a healthy request answers exactly like on a fresh instance. " +
 	"non-trivial = a case with a panic after a write, or inside a nested Next(), or with a non-string value, or with a failed dependency resolution, or followed by a healthy request; distinct by case text"
 
 var assumptions = []string{
@@ -37,6 +38,9 @@ type H struct {
 }
 
 type Case struct {
+	// EnvAtBuild is the environment while the application (and the Recovery
+	// middleware) is constructed; Env is the environment when requests arrive.
+	EnvAtBuild string   `json:"env_at_build,omitempty"`
 	Env        string   `json:"env"`
 	Outer      int      `json:"outer"`
 	RecoveryAt string   `json:"recovery_at"` // use | group | route
@@ -64,6 +68,12 @@ func panicValue(kind string) interface{} {
 		return customErr{7}
 	case "int":
 		return 12345
+	case "typednil":
+		// a non-nil interface value holding a nil pointer whose Error method
+		// dereferences the receiver
+		var e *os.PathError
+		var err error = e
+		return err
 	}
 	return "boom"
 }
@@ -76,11 +86,28 @@ func raise(kind string) {
 	panic(panicValue(kind))
 }
 
-func panicText(kind string) string {
-	if kind == "runtime" {
-		return "assignment to entry in nil map"
+// panicToken is a piece of text that any reasonable rendering of the panic
+// value contains (the statement does not fix the formatting).
+func panicToken(kind string) string {
+	switch kind {
+	case "runtime":
+		return "nil map"
+	case "string":
+		return "boom-string"
+	case "error":
+		return "boom-error"
+	case "struct":
+		return "42"
+	case "abort":
+		return "abort"
+	case "custom":
+		return "custom error 7"
+	case "int":
+		return "12345"
+	case "inj":
+		return "unable to invoke"
 	}
-	return fmt.Sprintf("%s", panicValue(kind))
+	return "" // typednil: only the PANIC page itself is required
 }
 
 // ---- interpreter of the handlers after Recovery --------------------------------
@@ -259,10 +286,20 @@ func setEnv(e string) {
 }
 
 func checkCase(c Case) (out evid.Outcome) {
-	setEnv(c.Env)
+	if c.EnvAtBuild != "" {
+		setEnv(c.EnvAtBuild)
+	} else {
+		setEnv(c.Env)
+	}
 	defer flamego.SetEnv(flamego.EnvTypeDev)
 	out.Sub = len(c.Reqs)
 	a := build(c)
+	freshApp := build(c)
+	setEnv(c.Env)
+	if c.EnvAtBuild != "" && c.EnvAtBuild != c.Env {
+		out.NonTrivial = true
+		out.Classes = append(out.Classes, "env-changed-after-build")
+	}
 	// normalise handlers that need an unresolvable dependency: nothing of their body runs
 	hs := make([]H, len(c.After))
 	for i, h := range c.After {
@@ -274,7 +311,7 @@ func checkCase(c Case) (out evid.Outcome) {
 		}
 	}
 	want := simulate(hs)
-	fresh := serve(build(c), c.path("ok"))
+	fresh := serve(freshApp, c.path("ok"))
 	if fresh.escaped != nil || fresh.status != 200 || fresh.body != "ok" {
 		return evid.Fail("healthy-baseline", "a fresh instance answers the healthy route with %+v", fresh)
 	}
@@ -320,16 +357,18 @@ func checkCase(c Case) (out evid.Outcome) {
 			return fail(out, "body-prefix", "body %q does not start with the bytes written before the panic %q; %s", clip(got.body), want.body, desc)
 		}
 		tail := got.body[len(want.body):]
+		// "panic detail appears in the body only in development mode": the
+		// statement does not fix the wording of either page, so only the presence
+		// / absence of the detail (the rendered value, stack frames) is checked
+		token := panicToken(want.panicked)
 		if c.Env == "development" {
-			text := panicText(want.panicked)
-			if want.panicked == "inj" {
-				text = "unable to invoke"
+			if token != "" && !strings.Contains(tail, token) {
+				return fail(out, "dev-detail", "development mode: body tail %q does not show the panic value (looking for %q); %s", clip(tail), token, desc)
 			}
-			if !strings.Contains(tail, "PANIC") || !strings.Contains(tail, text) {
-				return fail(out, "dev-detail", "development mode: body tail %q does not show the panic text %q; %s", clip(tail), text, desc)
+		} else {
+			if (token != "" && strings.Contains(tail, token)) || strings.Contains(tail, "c15_test.go") || strings.Contains(tail, "goroutine ") {
+				return fail(out, "detail-leak", "%s mode: the body shows panic detail: %q; %s", c.Env, clip(tail), desc)
 			}
-		} else if tail != "Internal Server Error" {
-			return fail(out, "detail-leak", "%s mode: body after the earlier bytes is %q, want exactly \"Internal Server Error\"; %s", c.Env, clip(tail), desc)
 		}
 		// classification
 		if want.status != 0 {
@@ -376,13 +415,16 @@ func js(v interface{}) string {
 	return string(b)
 }
 
-var kinds = []string{"string", "error", "runtime", "struct", "abort", "custom", "int"}
+var kinds = []string{"string", "error", "runtime", "struct", "abort", "custom", "int", "typednil"}
 
 func genCase(t *rapid.T) Case {
 	c := Case{
 		Env:        []string{"development", "production", "test"}[rapid.IntRange(0, 2).Draw(t, "env")],
 		Outer:      rapid.IntRange(0, 2).Draw(t, "outer"),
 		RecoveryAt: []string{"use", "group", "route"}[rapid.IntRange(0, 2).Draw(t, "at")],
+	}
+	if rapid.IntRange(0, 2).Draw(t, "envswitch") == 0 {
+		c.EnvAtBuild = []string{"development", "production", "test"}[rapid.IntRange(0, 2).Draw(t, "envbuild")]
 	}
 	n := rapid.IntRange(1, 3).Draw(t, "nafter")
 	for i := 0; i < n; i++ {
